@@ -61,10 +61,34 @@ class Units:
     def loop_unit(self, loop, name):
         return None
 
+    def is_match(self, name: str) -> bool:
+        """Is the local bound (only) to core.Match objects: the constructor, or what the search functions hand out."""
+        defs = bindings(self.fn).get(name, [])
+        if not defs:
+            a = [x for x in self.fn.node.args.args + self.fn.node.args.kwonlyargs if x.arg == name]
+            return bool(a and a[0].annotation is not None and norm(a[0].annotation).split("|")[0].strip().endswith("Match"))
+        for stmt, value in defs:
+            v = value
+            if v is None and isinstance(stmt, (ast.For, ast.AsyncFor)) and isinstance(stmt.target, ast.Name):
+                v = stmt.iter
+            if not isinstance(v, ast.Call):
+                return False
+            d = norm(v.func)
+            if d.split(".")[-1] == "Match" or d.split(".")[-1] in ("finditer", "search", "match", "fullmatch"):
+                r = self.prog.resolve_call(v.func, self.fn.mod, self.fn)
+                if d.split(".")[-1] == "Match" or (r and r[0] == "fn" and r[1].mod.name == "pattern_matching"):
+                    continue
+            return False
+        return True
+
     def unit(self, e: ast.AST) -> str:
         if isinstance(e, ast.Name):
             return self.env.get(e.id, OTHER)
         if isinstance(e, ast.Attribute):
+            if e.attr in ("lineno", "col_offset") and isinstance(e.value, ast.Name) and self.is_match(e.value.id):
+                # core.Match.lineno / .col_offset are derived from the CHARACTER span: the line the span starts on (decorators
+                # included) and the number of characters in front of it
+                return CHAR if e.attr == "col_offset" else "SPANLINE"
             if e.attr in BYTE_FIELDS:
                 return BYTE
             if e.attr in LINE_FIELDS:
@@ -179,7 +203,7 @@ def _is_byte_to_char_conversion(e: ast.Call) -> bool:
     return False
 
 
-LATER_RULES = ' Later rules: R13.4 also demands root= to be the parse of the whole source; (R13.5) line lists are indexed by line number minus one or under a sufficient bound; (R13.6) text[pos - 1] needs pos > 0.'
+LATER_RULES = ' Later rules: R13.4 also demands root= to be the parse of the whole source; (R13.5) line lists are indexed by line number minus one or under a sufficient bound; (R13.6) text[pos - 1] needs pos > 0. (R13.10) Match.lineno / Match.col_offset are span coordinates (characters; the line of the first decorator): never compared with raw ast lineno / col_offset of a statement that can be decorated, or with byte columns (R13.1).'
 
 
 def check(prog: Program, tier: str) -> Result:
@@ -237,6 +261,24 @@ def check(prog: Program, tier: str) -> Result:
                         if {x, y} == {BYTE, CHAR}:
                             res.bad("R13.1", fn.loc(n), fn.fq, short(n, 90), "a byte column is compared with a character offset")
                             break
+                # ---------------- R13.10 the line a match starts on vs the lineno of a node
+                for (a, pa_), (b, pb_) in zip(zip(units, parts), list(zip(units, parts))[1:]):
+                    ea = pa_.elts if isinstance(pa_, ast.Tuple) else [pa_]
+                    eb = pb_.elts if isinstance(pb_, ast.Tuple) else [pb_]
+                    for x, y, ex, ey in zip(a, b, ea, eb):
+                        if {x, y} == {"SPANLINE", LINENO}:
+                            raw = ex if x == LINENO else ey
+                            kinds = None
+                            if isinstance(raw, ast.Attribute) and isinstance(raw.value, ast.Name):
+                                from .c03 import _stmt_kinds_of, _DECORATABLE
+                                kinds = _stmt_kinds_of(prog, fn, raw.value.id)
+                            if kinds is None:
+                                res.undecided("R13.10", fn.loc(n), fn.fq, short(n, 90), "the line a match starts on is compared with the lineno of a node of unknown kind")
+                            else:
+                                ok = "*" not in kinds and not (kinds & _DECORATABLE)
+                                res.decide(ok, "R13.10", fn.loc(n), fn.fq, short(n, 90), "the node cannot carry decorators" if ok else
+                                           "the line a match starts on (its span begins at the first decorator) is compared with the raw lineno of a statement that can be a "
+                                           "decorated def / class (lineno is the line of `def`): a match at that statement is not recognised as starting there")
             if isinstance(n, ast.Subscript) and isinstance(n.slice, ast.Slice):
                 for b in (n.slice.lower, n.slice.upper):
                     if b is not None and u.unit(b) == BYTE:
@@ -631,6 +673,12 @@ def _r13_4(prog: Program, res: Result) -> None:
 from ..selftest import Variant  # noqa: E402
 
 VARIANTS: List[Variant] = [
+    Variant("match-anchored-by-raw-position-of-first-statement", "FIRE", "pattern_matching", '        if m.span.start == module_body_range.start:\n            return m\n',
+            "        if (m.lineno, m.col_offset) == (root.body[0].lineno, root.body[0].col_offset):\n            return m\n", "R13.1"),
+    Variant("match-anchored-by-raw-line-of-first-statement", "FIRE", "pattern_matching", '        if m.span.start == module_body_range.start:\n            return m\n',
+            "        first_statement = root.body[0]\n        if m.lineno == first_statement.lineno and m.span.start == module_body_range.start:\n            return m\n", "R13.10"),
+    Variant("match-anchored-by-span-of-first-statement", "SILENT", "pattern_matching", '        if m.span.start == module_body_range.start:\n            return m\n',
+            "        if m.span.start == core.get_charnos(root.body[0], source).start:\n            return m\n"),
     Variant("finder-reads-files-by-locale", "FIRE", "pattern_matching", "            with tokenize.open(filename) as stream:\n                source = stream.read()\n                encoding = stream.encoding\n", "            source = filename.read_text()\n            encoding = None\n", "R13.9"),
     Variant("finder-read-outside-a-handler", "FIRE", "pattern_matching", "        except (OSError, SyntaxError, UnicodeDecodeError) as error:", "        except OSError as error:", "R13.9"),
     Variant("peek-in-front-of-offset-zero", "FIRE", "core", "        at_sign = re.search(r\"@[\\s\\\\(]*\\Z\", source[:start_charno])\n        if at_sign:\n            start_charno = at_sign.start()\n", "        if source[start_charno - 1] == \"@\":\n            start_charno -= 1\n", "R13.6"),
